@@ -196,6 +196,7 @@ public:
          for (int c = 254; c <= 255; c++) for (int d = 1; d >= 0; d--) S(c, c, c - d, 1);
          S(254, 300, 254, 1); S(254, 300, 255, 1);
          break; }
+      case SS_HUGED: S(65534, 65534, 65534, 1); S(65535, 65535, 65535, 1); break;
       case SS_HUGE: {
          if (!thorough) { S(65534, 65534, 65534, 1); S(65535, 65535, 65535, 1); break; }
          const int caps[] = {65534, 65535, 65533, 65536};
@@ -217,6 +218,7 @@ public:
    {
       const Start & st = starts[s];
       if (LastSteps() > LevelLen()) LevelLen() = LastSteps();
+      if (mask == M_ALIAS && !checkEveryStep) { static bool done = false; if (!done) { done = true; int dn = open("/dev/null", O_WRONLY); if (dn >= 0) { dup2(dn, 2); close(dn); } } }   // exploration workers of the alias part: the sanitizer report of an expected crash is shown by --replay, not here
       LastSteps() = 0;
       SetConsoleLogLevel(MUSCLE_LOG_NONE);   // the out-of-memory warning of a failing Put (see MoveCtor) would otherwise be printed, with a stack trace, for every such transition
       const uint32 c = (uint32)st.hcap;
